@@ -216,13 +216,13 @@ theorem C20_results_only_after_join (s : St) (m : String) (v : String)
 /-- … and JOINED is reached only through a `join` whose `evaluate()` accepted the program's output: in every
 reachable JOINED state of an MSA wrapper the stored result is exactly the parse of what the program wrote; in every
 other reachable state there is no result. -/
-theorem C20_results_equal_output (w : Wrapper) (t : Tool) (n : Nat) (k : String) (cs : List Call) :
-    let s := run (init w t n k) cs
+theorem C20_results_equal_output (w : Wrapper) (t : Tool) (n : Nat) (k : String) (b : Bool) (cs : List Call) :
+    let s := run (init w t n k b) cs
     (s.state ≠ .joined → s.result = none) ∧
     (s.state = .joined → w.isMsa = true →
       ∃ r, s.result = some r ∧ parseOutput (toolRows t n) (badLengths t n) n = .ok r) := by
   intro s
-  have hi : Inv s := run_inv _ cs (inv_init w t n k)
+  have hi : Inv s := run_inv _ cs (inv_init w t n k b)
   have hfr : s.w = w ∧ s.tool = t ∧ s.n = n := run_frame _ cs
   refine ⟨result_none_of_nonterminal s hi, fun hs hm => ?_⟩
   obtain ⟨r, h1, h2⟩ := hi.resOk hs (by rw [hfr.1]; exact hm)
@@ -244,7 +244,7 @@ theorem C20_order_restored (out : List (Nat × Nat)) (n : Nat)
     simp only at hk; subst hk
     exact ⟨r, find_of_mem out k r hnd hm⟩
   obtain ⟨rows, h1, h2, h3⟩ := findAll_spec out (List.range n) hall
-  refine ⟨rows, by simp [parseOutput, h1, hlen], by simpa using h2, ?_⟩
+  refine ⟨rows, by simp [parseOutput, h1, uniq_of_nodup _ hnd, hlen], by simpa using h2, ?_⟩
   intro h r hm
   have hh : h < n := by
     have := hperm.mem_iff.1 (List.mem_map.2 ⟨(h, r), hm, rfl⟩)
@@ -289,6 +289,7 @@ theorem C20_symbol_counts_checked_per_row (s : St) (r) (hm : s.w.isMsa = true) (
         · simp at h
         · rename_i r' hr
           unfold parseOutput at hr
+          simp only at hr
           split at hr
           · simp at hr
           · split at hr
@@ -369,21 +370,56 @@ theorem C20_map_sequence_roundtrip (k : Nat) (codes : List Nat) (hc : ∀ c ∈ 
 unparsable output, non-zero exit code, hang, missing binary): if the wrapper is in a terminal state (JOINED or
 CANCELLED) then `clean_up()` has run exactly once, no child is alive, no temp file exists and the working directory is
 the caller's; in every other state `clean_up()` has not run and the working directory is the caller's. -/
-theorem C20_cleanup_once (w : Wrapper) (t : Tool) (n : Nat) (k : String) (cs : List Call) :
-    let s := run (init w t n k) cs
+theorem C20_cleanup_once (w : Wrapper) (t : Tool) (n : Nat) (k : String) (b : Bool) (cs : List Call) :
+    let s := run (init w t n k b) cs
     (s.state.terminal = true → s.cleanups = 1 ∧ s.child ≠ .alive ∧ s.files = 0 ∧ s.cwdChanged = false) ∧
     (s.state.terminal = false → s.cleanups = 0 ∧ s.cwdChanged = false) := by
   intro s
-  have hi : Inv s := run_inv _ cs (inv_init w t n k)
+  have hi : Inv s := run_inv _ cs (inv_init w t n k b)
   exact ⟨hi.term, fun h => ⟨hi.nonterm h, hi.cwd⟩⟩
+
+/-- **`join(float("inf"))` is refused where it cannot be honoured, and a refusal is not an end of the run.**  For a
+process-backed wrapper in RUNNING, `Popen.communicate(timeout=inf)` raises OverflowError before anything is touched: the
+state is exactly as before (the run goes on, `cancel()` / another `join` remain possible).  In FINISHED (pipes already
+drained) and for the generic `Application.join` (`now - start > inf` is never true) it behaves like no timeout. -/
+theorem C20_join_inf_rejects (s : St) :
+    (s.w ≠ .base → s.state = .running → step s (.join .inf) = (s, .err errOverflow)) ∧
+    (s.w ≠ .base → s.state = .finished → step s (.join .inf) = step s (.join .none)) ∧
+    (s.w = .base → step s (.join .inf) = step s (.join .none)) := by
+  refine ⟨fun hw hs => ?_, fun hw hs => ?_, fun hw => ?_⟩
+  · simp [step, guard_join, passes, hs, hw, joinLocalT]
+  · simp [step, guard_join, passes, hs, hw, joinLocalT]
+  · simp [step, guard_join, hw]
+
+/-- **One record too many is refused** (for every number of inputs): the program's output with an additional record can
+never be accepted — `OrderedDict` then has `n + 1` keys. -/
+theorem C20_extra_record_rejects (n : Nat) (rg : Bool) :
+    parseOutput (toolRows .garbageExtra n) rg n = .error errEval := by
+  have hk : (toolRows .garbageExtra n).map Prod.fst = List.range (n + 1) := by
+    simp [toolRows, List.range_succ, List.map_append, Function.comp_def]
+  unfold parseOutput
+  split
+  · rfl
+  · simp only [hk, uniq_of_nodup _ List.nodup_range, List.length_range]
+    simp
+
+/-- A record written twice is *not* refused: like the code's `OrderedDict`, the model keeps one entry per header and accepts
+(the harness checks that the contents returned are those of the copy written last).  Missing / non-index headers are refused. -/
+example :
+    parseOutput (toolRows .dupRecords 3) false 3 = .ok ([0, 1, 2], [0, 1, 2]) ∧
+    parseOutput (toolRows .garbageHeader 3) false 3 = .error errEval ∧
+    parseOutput (toolRows .garbageMissing 3) false 3 = .error errEval ∧
+    (step (run (init .mafft .dupRecords 3 "protein") [.start]) (.join .none)).2 = .ok "" := by decide
 
 /-- Every way a run can end does put the wrapper into a terminal state (so `C20_cleanup_once` applies):
 a failed launch, a `join` that returns or raises anything but a state error (timeout, exit code, unparsable output),
-and `cancel`. -/
+and `cancel`.  (The one exception: an argument `communicate` itself refuses, `join(inf)`, see
+`C20_join_inf_rejects` — nothing has happened then.) -/
 theorem C20_run_ends_terminal (s : St) :
     (∀ e, (step s .start).2 = .err e → e ≠ .stateError → (step s .start).1.state = .cancelled) ∧
     (∀ t, ((step s (.join t)).2 = .ok "" → (step s (.join t)).1.state = .joined) ∧
-          (∀ e, (step s (.join t)).2 = .err e → e ≠ .stateError → (step s (.join t)).1.state = .cancelled)) ∧
+          (∀ e, (step s (.join t)).2 = .err e → e ≠ .stateError → e ≠ errOverflow →
+             (step s (.join t)).1.state = .cancelled)) ∧
     ((step s .cancel).2 = .ok "" → (step s .cancel).1.state = .cancelled) :=
   ⟨start_ends s, fun t => join_ends s t, cancel_ends s⟩
 
@@ -430,6 +466,13 @@ theorem C20_web_refusal_pure (w : Web) :
 theorem C20_web_state_refusal_pure (w : Web) (c : Web.Call) (h : (Web.step w c).2 = .err .stateError) :
     (Web.step w c).1 = w :=
   Web.step_refused_pure w c h
+
+/-- The model never abstains on a web `join`: for every server script (`k` polls until READY), every clock and every
+timeout the poll loop ends before its fuel does — by READY, by the timeout, or by an exception of `is_finished()`. -/
+theorem C20_web_join_terminates (w : Web) (t : Option Int) (hs : w.state = .running ∨ w.state = .finished) :
+    (Web.step w (.join t)).2 ≠ .diverges := by
+  simp only [Web.step, hs, if_true]
+  exact Web.joinBody_terminates w t hs
 
 /-- Clean-up exactly once for the web wrapper as well: after any history of calls, clock steps and direct rule calls, with
 any server script, a terminal state has seen exactly one `clean_up()` (one Delete request), every other state none; results
